@@ -126,6 +126,13 @@ def main():
         common.setup_repo()
         rep = json.load(open(args.replay, encoding='utf-8'))
         viols = mod.replay(rep['witness'])
+        same = [v for v in viols if v['sig'] == rep.get('sig')]
+        if same:
+            viols = same
+        else:
+            # other signatures only count if they are not recorded findings of the unchanged tree
+            known = {k['signature'] for k in load_known() if k.get('status') == 'known'}
+            viols = [v for v in viols if v['sig'] not in known]
         if viols:
             for v in viols:
                 print('REPLAY still fails: %s :: %s' % (v['sig'], v['what']))
